@@ -26,6 +26,7 @@ import (
 	"context"
 	"errors"
 	"fmt"
+	"io"
 	"io/ioutil"
 	"os"
 	"path/filepath"
@@ -121,6 +122,15 @@ func c16Walk(s storage.Store, pfx, delim string, count int) (pages [][]string, r
 	return pages, strings.Join(parts, "|")
 }
 
+// c16Source hands the bytes over as an io.WriterTo (bytes.Reader) or as a plain io.Reader (what a
+// pipe, a LimitReader or a wrapped reader is): the stores take different code paths for the two.
+func c16Source(v []byte, pick int) io.Reader {
+	if pick%2 == 0 {
+		return bytes.NewReader(v)
+	}
+	return struct{ io.Reader }{bytes.NewReader(v)}
+}
+
 func c16Exec(c *ctx, s storage.Store, op c16Op) {
 	w := c.w
 	switch op.kind {
@@ -129,7 +139,9 @@ func c16Exec(c *ctx, s storage.Store, op c16Op) {
 		if op.excl {
 			x = 1
 		}
-		r := c16Guard(func() string { return c16Class(s.Put(c16ctx, op.key, bytes.NewReader(op.val), op.excl)) })
+		r := c16Guard(func() string {
+			return c16Class(s.Put(c16ctx, op.key, c16Source(op.val, len(op.key)+len(op.val)), op.excl))
+		})
 		w.Op(fmt.Sprintf("put k=%s v=%s x=%d", tr.Esc(op.key), tr.Hex(op.val), x), r)
 		w.Count("put=" + r)
 	case "get":
@@ -470,7 +482,7 @@ func c16Race(c *ctx, name string, lock int, s storage.Store, n int, key string, 
 				}
 			}()
 			<-start
-			switch c16Class(s.Put(c16ctx, key, bytes.NewReader(vals[i]), storage.NoOverWrite)) {
+			switch c16Class(s.Put(c16ctx, key, c16Source(vals[i], i), storage.NoOverWrite)) {
 			case "ok":
 				res[i] = "o"
 			case "exists":
